@@ -21,10 +21,11 @@ def _find(prog: Program, module: str, table: str, what: str, prefer: str) -> Fun
     cands = [f for f in prog.all_functions() if f.module.name == module and _assigns_local(f, table)]
     if not cands:
         raise AnalysisError(f"anchor not found: the function in valida/{module}.py that builds the local table {table} ({what})")
+    from .flatten import flat
     for f in cands:
         if f.qualname == prefer:
-            return f
-    return cands[0]
+            return flat(prog, f)
+    return flat(prog, cands[0])
 
 
 def condition_parser(prog: Program) -> FuncInfo:
@@ -41,9 +42,12 @@ def part_parser(prog: Program) -> FuncInfo:
 
 
 def condition_writer(prog: Program) -> FuncInfo:
+    from .flatten import flat
     for f in prog.all_functions():
-        if f.module.name == "conditions" and f.name == "to_json_like" and "get_func_args_by_kind" in ast.unparse(f.node):
-            return f
+        if f.module.name == "conditions" and f.name == "to_json_like":
+            ff = flat(prog, f)
+            if "get_func_args_by_kind" in ast.unparse(ff.node):
+                return ff
     raise AnalysisError("anchor not found: the condition serialiser (to_json_like using get_func_args_by_kind)")
 
 
